@@ -10,6 +10,7 @@ import StepModel.GenCxxRulesLemmas
 import StepModel.GenCxxAgree
 import StepModel.GenCxxDedup
 import StepModel.GenCxxDeriveFull
+import StepModel.GenCxxRedefFull
 /-!
 # C02 — generated dictionary and classes mirror the EXPRESS schema
 
@@ -690,6 +691,26 @@ theorem C02_flags_second_supertype_derivation :
     instanceFlags (sch ["c", "b"]) "u" = some [(⟨"a", "x", .E⟩, true, false)] ∧
     instanceFlags (sch ["b", "c"]) "u" = some [(⟨"a", "x", .E⟩, true, false)] := by
   decide
+
+/-- **`_redefAttr` never appears out of nothing, for EVERY schema and supertype graph** (no hypothesis at all): an attribute of a
+    fresh instance of `n` that is wired to a redefining attribute is meant by an explicit redeclaration `SELF\sup.x` of `n` or one of
+    its supertypes — it is registered as `x` and, since fix C02-9, owned by the entity that declares `sup`'s `x` (`redefOwner`).
+    This is the property the check's oracle key `flags:redefined-wired-to-wrong-supertype` evaluates on the real instance. -/
+theorem C02_flags_redef_sound_full (s : Schema) (n : String) (l : List (SA × Bool × Bool)) (hl : instanceFlags s n = some l) :
+    ∀ a d r, (a, d, r) ∈ l → r = true → RedefBy s n a := by
+  intro a d r hmem hr
+  unfold instanceFlags at hl
+  have hkey := C02_push_compares_descriptor
+  simp only [hkey, Option.some.injEq] at hl
+  subst hl
+  simp only [List.mem_filterMap] at hmem
+  obtain ⟨id, _, ho⟩ := hmem
+  cases hobj : (ctorNF s (fuelOf s) n {}).objs[id]? with
+  | none => simp [hobj] at ho
+  | some o =>
+    simp only [hobj, Option.map_some, Option.some.injEq, Prod.mk.injEq] at ho
+    obtain ⟨h1, _, h3⟩ := ho
+    exact flags_redef_sound_full s n (fuelOf s) id a (by simp [saAt, hobj, h1]) (by simp [rAt, hobj, h3, hr])
 
 /-- What remains order dependent is `_redefAttr`: `b` redeclares `SELF\a.x : INTEGER` explicitly.  In an instance of `u SUBTYPE OF (c, b)`
     the attribute `a.x` is not wired to the redefining attribute (the part constructor of `b` wires its own copy of `a.x`, which
